@@ -282,6 +282,12 @@ static ABT_unit l_pop(ABT_pool pool)
     int s = x_pop_slot(pool_index(pool));
     return s < 0 ? ABT_UNIT_NULL : (ABT_unit)S[s].addr;
 }
+/* the optional timed pop of the legacy definition (it does not wait here: the scheduler polls) */
+static ABT_unit l_pop_timedwait(ABT_pool pool, double t)
+{
+    (void)t;
+    return l_pop(pool);
+}
 /* ABT_thread_yield_to takes its target out of the target's pool */
 static int l_remove(ABT_pool pool, ABT_unit u)
 {
@@ -354,6 +360,7 @@ static void make_pool(int p)
         def.p_get_size = l_get_size;
         def.p_push = l_push;
         def.p_pop = l_pop;
+        def.p_pop_timedwait = l_pop_timedwait;
         def.p_free = l_free_pool;
         def.p_remove = l_remove;
         switch (p) {
@@ -416,7 +423,11 @@ static void cs_run(ABT_sched s)
             continue;
         }
         ABT_unit unit = ABT_UNIT_NULL;
-        CHK(ABT_pool_pop(P[p], &unit));
+        /* legacy pools are also popped through their optional timed pop */
+        if (g_kind[p] == 'L' && rnd(2))
+            CHK(ABT_pool_pop_timedwait(P[p], &unit, 0.0));
+        else
+            CHK(ABT_pool_pop(P[p], &unit));
         if (unit != ABT_UNIT_NULL) {
             ABT_thread th = ABT_THREAD_NULL;
             CHK(ABT_unit_get_thread(unit, &th));
